@@ -4,11 +4,20 @@
 // and the adapter by name and never looks inside.
 use std::vec::Vec;
 use std::string::String;
-use std::sync::atomic::{AtomicBool, AtomicUsize, Ordering};
+use std::sync::atomic::{AtomicUsize, Ordering};
 
 /// Heap allocations made while library code (not the harness) is running: counted by the replay binary's
 /// global allocator while `TRACK` is on; every harness routine switches it off for its own duration.
-pub static TRACK: AtomicBool = AtomicBool::new(false);
+/// The flag is per thread: only the thread that runs the library code is counted (the main thread of the replay binary
+/// waits on a channel meanwhile and may allocate).
+pub struct ThreadFlag;
+std::thread_local! { static TRACK_TL: core::cell::Cell<bool> = const { core::cell::Cell::new(false) }; }
+impl ThreadFlag {
+    pub fn load(&self, _: Ordering) -> bool { TRACK_TL.try_with(|c| c.get()).unwrap_or(false) }
+    pub fn store(&self, v: bool, _: Ordering) { let _ = TRACK_TL.try_with(|c| c.set(v)); }
+    pub fn swap(&self, v: bool, _: Ordering) -> bool { TRACK_TL.try_with(|c| c.replace(v)).unwrap_or(false) }
+}
+pub static TRACK: ThreadFlag = ThreadFlag;
 pub static ALLOCS: AtomicUsize = AtomicUsize::new(0);
 
 pub fn harness<R>(f: impl FnOnce() -> R) -> R {
